@@ -316,9 +316,13 @@ def rule_params(ck):
     gets = [(n, c) for n, c in calls_in(fl, "get") if dotted(c.func) == "requests.get"]
     firsts = []
     for n, c in gets:
-        u = canon(fl.expand(c.args[0], n)) if c.args else ""
-        if "'sessions/' + " in u and "['_links']" not in u and '["_links"]' not in u:
-            firsts.append((n, c, u))      # (a follow-up request's URL derives from the previous payload, whose own URL it thereby mentions)
+        # judged per alternative of the URL: a follow-up request's URL derives from the previous payload (whose own URL it thereby
+        # mentions), and one request site in a loop may serve both the first page and the next links
+        for alt in (alts_deep(fl.expand(c.args[0], n), limit=16) if c.args else []):
+            u = canon(alt)
+            if "'sessions/' + " in u and "['_links']" not in u and '["_links"]' not in u:
+                firsts.append((n, c, canon(fl.expand(c.args[0], n))))      # completeness (base, endpoint, /ts/, arguments) is judged on the whole value
+                break
     ck.require(len(firsts) >= 1, "C20.R3", f, "first request", bad="no request to the sessions/<site> endpoint", sink="params:first")
     for n, c, u in firsts:
         ck.require("self.url" in u and f"'sessions/' + {site}" in u and ".join(" in u and "'/ts/'" in u, "C20.R3", f, c,
